@@ -638,9 +638,13 @@ class IH5Group(IH5InnerNode):
         dst_name: str
         if isinstance(dest, str):
             # if dest is a path, ignore inferred/passed name
-            segs = self._abs_path(dest).split("/")
-            dst_group = self.require_group("/".join(segs[:-1]) or "/")
-            dst_name = segs[-1]
+            # (missing groups along the path could be located inside the source, so
+            # they are created together with the target, after the source is listed)
+            segs = self._abs_path(dest).strip("/").split("/")
+            nodes = self._node_seq(self._abs_path(dest))
+            num_existing = min(len(nodes), len(segs)) - 1
+            dst_group = nodes[num_existing]
+            dst_name = "/".join(segs[num_existing:])
         else:
             # given dest is a group node, use inferred/passed name
 
